@@ -102,6 +102,7 @@ def c11(tier, seed):
         {'line': './pargs $(sh -c "echo o; echo e >&2") 2> err; cat err', 'files': {'pargs': PARGS}, 'expect_stdout': '[o]\n', 'area': 'substitution:stderr'},
         {'line': "./pargs '$(echo a)' '`echo a`'", 'files': {'pargs': PARGS}, 'expect_stdout': _argv(['$(echo a)', '`echo a`']), 'area': 'substitution:single-quoted'},
         {'line': 'alias zz="echo al"; ./pargs $(zz)', 'files': {'pargs': PARGS}, 'expect_stdout': _argv(['al']), 'area': 'substitution:alias'},
+        {'line': './pargs é$(echo x)z "naïve $(echo x) end" é`echo y`z $(echo éé)', 'files': {'pargs': PARGS}, 'expect_stdout': _argv(['éxz', 'naïve x end', 'éyz', 'éé']), 'area': 'substitution:multi-byte-text-around'},
         # a builtin as the last stage of a substituted pipeline
         {'line': 'alias zq=1; ./pargs "$(echo x | alias)"', 'files': {'pargs': PARGS}, 'expect_stdout_contains': 'zq', 'area': 'substitution:pipeline-ending-in-a-builtin'},
         # only trailing newlines are removed: blanks at either end belong to the output
@@ -215,6 +216,7 @@ def c12(tier, seed):
     out.append({'line': './pargs a {1..2} b', 'files': {'pargs': PARGS}, 'expect_stdout': _argv(['a', '1', '2', 'b']), 'area': 'expand_brace_range:order'})
     # tilde: HOME is the temp dir the case runs in
     out.append({'line': './pargs ~ ~/x a~ "~" \'~\'; echo $HOME', 'files': {'pargs': PARGS}, 'expect_home_tilde': True, 'area': 'expand_home'})
+    out.append({'line': './pargs ~/n~ ~/d/~x; echo $HOME', 'files': {'pargs': PARGS}, 'expect_home_tilde2': True, 'area': 'expand_home:only-the-leading-tilde'})
     # glob
     pop = {'pargs': PARGS, 'a1': '', 'a2': '', 'b1': '', '.ahid': '', 'a b': ''}
     out += [
@@ -270,6 +272,8 @@ def c13(tier, seed):
     out.append({'line': "F=ff; ./pargs hi >$F; cat ff", 'files': {'pargs': PARGS}, 'expect_stdout': _argv(['hi']), 'area': 'data:variable:written-redirection-still-works'})
     # a matched file name with range braces is one word
     out.append({'line': 'mkdir gb; touch "gb/{1..2}" gb/z; ./pargs gb/*', 'files': {'pargs': PARGS}, 'expect_stdout': _argv(['gb/z', 'gb/{1..2}']), 'area': 'data:glob:name-with-braces'})
+    for v in ('a>b', 'x|y'):
+        out.append({'line': "V='%s'; ./pargs $(echo $V $(echo 1)) \"$(echo $(echo $V))\"" % v, 'files': {'pargs': PARGS}, 'expect_stdout': _argv([v + ' 1', v]), 'expect_only_files': ['pargs'], 'area': 'data:variable:inside-nested-substitution'})
     names = ['a>b', 'x;y', 'p|q', 'r&', '#h', '2>&1']
     files = dict({'pargs': PARGS}, **{n: '' for n in names})
     out.append({'line': './pargs *', 'files': files, 'expect_stdout': _argv(sorted(names + ['pargs'])), 'expect_only_files': sorted(names + ['pargs']), 'area': 'data:glob'})
@@ -294,6 +298,8 @@ def c17(tier, seed):
         {'line': "alias n=\"./pargs 'a b'\"; n", 'files': P, 'expect_stdout': _argv(['a b']), 'area': 'alias:inner-quotes'},
         {'line': "alias n='./pargs a | cat'; n", 'files': P, 'expect_stdout': _argv(['a']), 'area': 'alias:pipe-in-value'},
         {'line': "alias my-n.1_x='./pargs ok'; my-n.1_x", 'files': P, 'expect_stdout': _argv(['ok']), 'area': 'alias:name-charset'},
+        {'line': "alias -x='./pargs hi'; alias -x; alias x-y='./pargs yo'; alias x-y; alias .z='./pargs zz'; alias .z", 'files': P,
+         'expect_stdout': "alias -x='./pargs hi'\nalias x-y='./pargs yo'\nalias .z='./pargs zz'\n", 'area': 'alias:name-charset:list-one'},
         {'line': "alias g-s='./pargs \"x y\"'; g-s", 'files': P, 'expect_stdout': _argv(['x y']), 'area': 'alias:name-charset:inner-quotes'},
         {'line': "alias g.s=\"./pargs 'x y'\"; g.s", 'files': P, 'expect_stdout': _argv(['x y']), 'area': 'alias:name-charset:inner-quotes'},
         {'line': "alias g-s='\"./pargs\" x'; g-s", 'files': P, 'expect_stdout': _argv(['x']), 'area': 'alias:name-charset:inner-quotes'},
@@ -358,6 +364,8 @@ def c03(tier, seed):
     out += [
         {'script': './st "a" 0; ./st \'b\' 3 && ./st c 0 || ./st "d" 5;./st e 0\n', 'files': {'st': ST}, 'expect_stdout': 'a\nb\nd\ne\n', 'expect_rc': 0, 'area': 'list:script:operators-after-quotes'},
         {'script': './st "a;b" 0;./st "c" 4\n', 'files': {'st': ST}, 'expect_stdout': 'a;b\nc\n', 'expect_rc': 4, 'area': 'list:script:operators-after-quotes'},
+        {'script': './st "C:\\\\" 0 && ./st b 3 ; ./st c 5\n', 'files': {'st': ST}, 'expect_stdout_any': ['C:\\\\\nb\nc\n', 'C:\\\nb\nc\n'], 'expect_rc': 5, 'area': 'list:script:quoted-word-ending-in-backslash'},
+        {'script': "./st 'x\\' 0 || ./st no 0 ; ./st c 6\n", 'files': {'st': ST}, 'expect_stdout': 'x\\\nc\n', 'expect_rc': 6, 'area': 'list:script:quoted-word-ending-in-backslash'},
         {'script': './st "$1" 0; ./st "${2}" 0;./st "$@" 0\n', 'args': ['x', 'y z'], 'files': {'st': ST}, 'expect_stdout': 'x\ny z\nx y z\n', 'area': 'list:script:operators-after-quotes'},
     ]
     out += [
@@ -487,6 +495,8 @@ def c09(tier, seed):
         {'line': 'mkdir d1 d2; cd d1; cd /nonexistent-xyz; cd ../d2; cd -; basename $PWD', 'files': F, 'expect_stdout_last_line': 'd1', 'area': 'cd:dash-after-failed'},
         {'line': 'mkdir real; ln -s real lnk; cd lnk; echo x > here; cd ..; cat real/here', 'files': F, 'expect_stdout': 'x\n', 'area': 'cd:symlink'},
         {'line': 'mkdir d1; cd d1; echo x > f; cd ..; cat d1/f', 'files': F, 'expect_stdout': 'x\n', 'area': 'cd:relative-redirect'},
+        {'line': 'mkdir -p real/sub; ln -s real lnk; cd $HOME/lnk/sub; test "$PWD" = "$(/bin/pwd -P)" && echo same; sh -c \'test "$PWD" = "$(/bin/pwd -P)" && echo child-same\'; cd $HOME/real/sub/../; basename $PWD; cd $HOME/real/; basename $PWD',
+         'files': F, 'expect_stdout': 'same\nchild-same\nreal\nreal\n', 'area': 'cd:absolute-path-is-resolved'},
         {'line': 'export HOME=/nonexistent-xyz; cd; echo rc=$?', 'files': F, 'expect_stdout': 'rc=1\n', 'area': 'cd:no-argument-failed'},
     ]
     # random histories of assign / export / unset / prefixed command over two names, checked after every step against the model the property states
@@ -662,7 +672,7 @@ def c05(tier, seed):
     alpha = ['>', '<', '|', '&', ';', "'", '"', '$', '(', ')', '{', '}', 'a', ' ', '`', '2', '.', '\\', '*', '~', '=']
     n = 3 if tier == 'quick' else 4
     fixed = ['> f', '<', '2>&1', 'ls | > f', 'echo $(echo >)', 'echo {2147483646..2147483647}', '99999999999999999999 + 1', '2 ^ 64', '2 ^ -1',
-             'echo `', 'echo $(', 'echo ${', 'echo "', "echo '", 'a=', '=a', 'cd a b', 'alias', 'unalias', 'export', 'source', 'fg', 'bg', 'exec', 'exit x; echo no',
+             'echo `', 'echo $(', 'echo ${', 'echo "', "echo '", 'a=', '=a', 'A="', "B='", 'export C="', "export D='", 'A="" B=\'\'', 'cd a b', 'alias', 'unalias', 'export', 'source', 'fg', 'bg', 'exec', 'exit x; echo no',
              '(', ')', '((', '))', '{', '}', '$', '$$$', '\\', '&&', '||', ';;', '| |', '& &', 'echo {1..}', 'echo {..1}', 'echo {a..b}', 'echo {1..2..0}',
              '1 +', '+ 1', '1 / 0', '(1', '1)', '2 ^ 99999', '1.5.5 + 1', 'é' * 50, 'echo ' + 'a' * 5000, 'echo ' + ' '.join(['x'] * 500)]
     allc = [''.join(t) for k in range(1, n + 1) for t in itertools.product(alpha, repeat=k)]
